@@ -667,6 +667,9 @@ def _describe_object_type(
     *,
     ctx: Context,
 ) -> uuid.UUID:
+    # Components of compound types can be views (e.g. of a WITH binding);
+    # those are transient and must be described by their material type.
+    ctx.schema, t = t.material_type(ctx.schema)
     if t.is_compound_type(ctx.schema):
         return _describe_compound_object_type(t, ctx=ctx)
     else:
